@@ -331,6 +331,15 @@ func (c *Catalogue) KeyLeaves() []*Type {
 // Special: depth-2/3 shapes that take paths of their own in the generators (an array in a map value is
 // not addressable; named arrays; pointer to pointer; nested slices/maps) — part of every tier.
 func (c *Catalogue) Special() []*Type {
+	l := c.special()
+	if c.WithMethods {
+		// a type with its own Equal/Compare methods inside composites that == could compare
+		l = append(l, Ar(2, Ar(2, c.ME)), St(Ar(2, c.ME), B("int")), Ar(2, St(c.ME, B("int"))), Named(25, "HME", 0, St(B("string"), Ar(2, c.ME))))
+	}
+	return l
+}
+
+func (c *Catalogue) special() []*Type {
 	nrow := Named(20, "NRow", 0, Ar(2, Sl(B("int"))))
 	// recursion through a map: the generated function for the map type re-enters itself
 	recm := Named(21, "RecM", 0, nil)
